@@ -1178,7 +1178,6 @@ macro "wf_leaf" : tactic => `(tactic| (repeat' (first
   | split
   | dsimp only)))
 
-set_option maxHeartbeats 1600000 in
 theorem parseCmd_wf (name : Bytes) (args : List Bytes) (cmd : Cmd) (h : parseCmd name args = some cmd) :
     cmd.wf = true := by
   unfold parseCmd at h
